@@ -101,7 +101,7 @@ func fmtFor(rfmts []int16, i int) int16 {
 func (ch c09) Run(c *core.Ctx) {
 	env := hs.Start(hs.Parse)
 	defer env.Stop()
-	n := 2200
+	n := 6000
 	if c.Tier == "thorough" {
 		n = 60000
 	}
